@@ -44,6 +44,7 @@ func cmdWire12(args []string) {
 	big := fs.Bool("big", false, "add the inputs that are too long to log")
 	out := fs.String("out", "obs12", "prefix of the observed chunk files")
 	chunk := fs.Int("chunk", 40000, "rows per chunk file")
+	rchunk := fs.Int("rchunk", 0, "rows per chunk file for the random rows (they are longer)")
 	fs.Parse(args)
 	w := wire.NewWriter(*out, *chunk)
 	put := func(r wire.Row) error {
@@ -57,6 +58,9 @@ func cmdWire12(args []string) {
 		if err := wire.ReadRows(f, put); err != nil {
 			die(err)
 		}
+	}
+	if err := w.NextFile(*rchunk); err != nil {
+		die(err)
 	}
 	r := rand.New(rand.NewSource(*seed))
 	for i := 0; i < *nrand; i++ {
@@ -82,6 +86,7 @@ func cmdWire14(args []string) {
 	exh := fs.Int("exh", -1, "decode every byte string up to this length over the 12-byte alphabet")
 	out := fs.String("out", "obs14", "prefix of the observed chunk files")
 	chunk := fs.Int("chunk", 20000, "rows per chunk file")
+	rchunk := fs.Int("rchunk", 0, "rows per chunk file for the random rows (they are longer)")
 	fs.Parse(args)
 	w := wire.NewWriter(*out, *chunk)
 	put := func(r wire.Row) error {
@@ -102,6 +107,9 @@ func cmdWire14(args []string) {
 				die(err)
 			}
 		})
+	}
+	if err := w.NextFile(*rchunk); err != nil {
+		die(err)
 	}
 	r := rand.New(rand.NewSource(*seed))
 	for i := 0; i < *nrand; i++ {
